@@ -71,6 +71,10 @@
 #include <xercesc/validators/schema/SchemaElementDecl.hpp>
 #include <xercesc/validators/schema/SchemaSymbols.hpp>
 #include <xercesc/validators/schema/ComplexTypeInfo.hpp>
+#include <xercesc/validators/schema/SchemaGrammar.hpp>
+#include <xercesc/validators/schema/SubstitutionGroupComparator.hpp>
+#include <xercesc/validators/common/GrammarResolver.hpp>
+#include <xercesc/framework/XMLSchemaDescription.hpp>
 #include <xercesc/internal/XMLScanner.hpp>
 
 static MemoryManager* gMM = 0;
@@ -282,6 +286,105 @@ static std::string tier1(const std::vector<std::string>& f) {
     }
     delete cti;
     return out;
+}
+
+// ================================================================================================
+// TIER 1b -- SubstitutionGroupComparator::isEquivalentTo on declared components
+// ================================================================================================
+//   Q <nT> <type>*nT <nE> <elem>*nE
+//     <type> := <base index|->:<e|r>:<xy>                 derivedBy, block = extension restriction (0/1)
+//     <elem> := <ns 1|2>:<type index>:<head index|->:<xyz> block = substitution extension restriction (0/1)
+//   Real SchemaGrammars (urn:a, urn:b) in a real GrammarResolver hold real global SchemaElementDecls "q<k>" with real
+//   ComplexTypeInfo chains (setBaseComplexTypeInfo / setDerivedBy / setBlockSet, setSubstitutionGroupElem) -- the state
+//   TraverseSchema leaves behind -- and the real comparator is asked for every ordered pair (member, exemplar).
+//   -> one char per pair, row-major in the member: '1' equivalent, '0' not, 'x' exception
+static std::vector<std::string> splitColon(const std::string& s) {
+    std::vector<std::string> out; std::string cur;
+    for (char c : s) { if (c == ':') { out.push_back(cur); cur.clear(); } else cur += c; }
+    out.push_back(cur);
+    return out;
+}
+static bool toIdx(const std::string& s, long& v) {
+    if (s == "-") { v = -1; return true; }
+    if (s.empty() || s.size() > 3) return false;
+    v = 0;
+    for (char c : s) { if (c < '0' || c > '9') return false; v = v * 10 + (c - '0'); }
+    return true;
+}
+static std::string cmdQ(const std::vector<std::string>& f) {
+    size_t p = 1;
+    long nT, nE;
+    if (p >= f.size() || !toIdx(f[p++], nT) || nT < 0 || nT > 40) return "bad-op";
+    if (p + nT >= f.size()) return "bad-op";
+    struct TD { long base; int deriv; int block; };
+    struct ED { long ns, type, head; int block; };
+    std::vector<TD> tds; std::vector<ED> eds;
+    for (long i = 0; i < nT; i++) {
+        auto w = splitColon(f[p++]);
+        TD t;
+        if (w.size() != 3 || !toIdx(w[0], t.base) || t.base >= i || w[2].size() != 2) return "bad-op";   // acyclic
+        if (w[1] == "e") t.deriv = SchemaSymbols::XSD_EXTENSION; else if (w[1] == "r") t.deriv = SchemaSymbols::XSD_RESTRICTION; else return "bad-op";
+        t.block = (w[2][0] == '1' ? SchemaSymbols::XSD_EXTENSION : 0) | (w[2][1] == '1' ? SchemaSymbols::XSD_RESTRICTION : 0);
+        tds.push_back(t);
+    }
+    if (!toIdx(f[p++], nE) || nE < 0 || nE > 40 || p + nE != f.size()) return "bad-op";
+    for (long k = 0; k < nE; k++) {
+        auto w = splitColon(f[p++]);
+        ED e;
+        if (w.size() != 4 || !toIdx(w[0], e.ns) || (e.ns != 1 && e.ns != 2) || !toIdx(w[1], e.type) || e.type < 0 || e.type >= nT
+            || !toIdx(w[2], e.head) || e.head >= k || w[3].size() != 3) return "bad-op";                    // acyclic
+        e.block = (w[3][0] == '1' ? SchemaSymbols::XSD_SUBSTITUTION : 0) | (w[3][1] == '1' ? SchemaSymbols::XSD_EXTENSION : 0)
+                | (w[3][2] == '1' ? SchemaSymbols::XSD_RESTRICTION : 0);
+        eds.push_back(e);
+    }
+    static const XMLCh uA[] = { 'u','r','n',':','a',0 };
+    static const XMLCh uB[] = { 'u','r','n',':','b',0 };
+    std::string out;
+    std::vector<ComplexTypeInfo*> ctis;
+    {
+        GrammarResolver resolver(0, gMM);
+        XMLStringPool* pool = resolver.getStringPool();
+        const XMLCh* uris[3] = { 0, uA, uB };
+        unsigned int ids[3] = { 0, pool->addOrFind(uA), pool->addOrFind(uB) };
+        SchemaGrammar* gr[3] = { 0, 0, 0 };
+        for (int n = 1; n <= 2; n++) {
+            gr[n] = new (gMM) SchemaGrammar(gMM);
+            gr[n]->setTargetNamespace(uris[n]);
+            ((XMLSchemaDescription*)gr[n]->getGrammarDescription())->setTargetNamespace(uris[n]);
+            resolver.putGrammar(gr[n]);                      // adopted (grammar bucket)
+        }
+        for (long i = 0; i < nT; i++) {
+            ComplexTypeInfo* c = new (gMM) ComplexTypeInfo(gMM);
+            c->setDerivedBy(tds[i].deriv);
+            c->setBlockSet(tds[i].block);
+            ctis.push_back(c);
+        }
+        for (long i = 0; i < nT; i++) if (tds[i].base >= 0) ctis[i]->setBaseComplexTypeInfo(ctis[tds[i].base]);
+        std::vector<SchemaElementDecl*> decls;
+        std::vector<QName*> names;
+        for (long k = 0; k < nE; k++) {
+            std::string local = "q" + std::to_string(k);
+            std::basic_string<XMLCh> l16(local.begin(), local.end());
+            SchemaElementDecl* d = (SchemaElementDecl*)gr[eds[k].ns]->putElemDecl(ids[eds[k].ns], l16.c_str(), XMLUni::fgZeroLenString,
+                                                                                    l16.c_str(), Grammar::TOP_LEVEL_SCOPE);
+            d->setComplexTypeInfo(ctis[eds[k].type]);
+            d->setBlockSet(eds[k].block);
+            d->setModelType(SchemaElementDecl::Children);
+            decls.push_back(d);
+            names.push_back(new (gMM) QName(XMLUni::fgZeroLenString, l16.c_str(), ids[eds[k].ns], gMM));
+        }
+        for (long k = 0; k < nE; k++) if (eds[k].head >= 0) decls[k]->setSubstitutionGroupElem(decls[eds[k].head]);
+        SubstitutionGroupComparator cmp(&resolver, pool);
+        for (long d = 0; d < nE; d++)
+            for (long c = 0; c < nE; c++) {
+                char r;
+                try { r = cmp.isEquivalentTo(names[d], names[c]) ? '1' : '0'; } catch (...) { r = 'x'; }
+                out += r;
+            }
+        for (QName* q : names) delete q;
+    }
+    for (ComplexTypeInfo* c : ctis) delete c;
+    return out.empty() ? "-" : out;
 }
 
 // ================================================================================================
@@ -777,6 +880,7 @@ int main() {
             std::string out;
             try {
                 if ((f[0] == "V" && f.size() == 3) || (f[0] == "A" && f.size() == 4)) out = tier1(f);
+                else if (f[0] == "Q" && f.size() >= 3) out = cmdQ(f);
                 else if (f[0] == "S" || f[0] == "SV") out = cmdS(f, f[0] == "SV");
                 else if ((f[0] == "I" || f[0] == "IV" || f[0] == "IU") && f.size() == 2) out = cmdI(f[1], f[0] == "IV", f[0] != "IU");
                 else out = "bad-op";
